@@ -24,4 +24,15 @@ CHECKS['C11'] = {
     'design_ref': 'DESIGN.md §4 C11',
 }
 
+CHECKS['C15'] = {
+    'technique': 'static analysis: who-may-call rule from the shell-input call-graph closure into a table of panicking http_types entry points, edge-dominance rule for status classification, provenance of pass-through errors, error-edge discipline of decoders, header-write ordering rule',
+    'text': 'Static rule instances over the MIR of crux_http (default + all-features): the call-graph closure of the shell-input path contains no tabled panicking constructor or unwrap, Response::new classifies exactly on the client/server error edges and copies status/headers/body, shell errors pass through unmodified in both APIs, decoders return every failure as an error, and only the shell\'s headers are written. Two genuine panics on unusual statuses/headers are recorded as known findings. Decoder conformance is trusted.',
+    'design_ref': 'DESIGN.md §4 C15',
+}
+CHECKS['C16'] = {
+    'technique': 'static analysis: dominance/ordering rules on Client::send and Next::run, who-may-call rule for HTTP effect emission, loop-bound and provenance rules on Redirect::handle',
+    'text': 'Static rule instances over the MIR of crux_http: middleware stacking order, one-middleware-per-Next::run, every HTTP effect emitted under the Next endpoint (the command API bypass is a recorded known finding), the redirect loop bounded by self.attempts with cloned probes and the original request sent last, an empty stack for the inner Client, and the join base updated with every URL rewrite. Necessary conditions over all stacks and redirect graphs; URL resolution inside the url crate is trusted.',
+    'design_ref': 'DESIGN.md §4 C16',
+}
+
 PENDING_REASON = 'check not yet armed in this framework (static rules designed in DESIGN.md §4; implementation in progress)'
